@@ -15,6 +15,29 @@ pub struct Step {
     pub via_cli: bool,
     /// library runs of ctr/cov: memory ceiling derived from the input for about this many chunks
     pub chunks: Option<usize>,
+    /// which input path the step reads (steps with the same slot read the same path; the file is rewritten
+    /// only when its content changes)
+    #[serde(default)]
+    pub slot: u8,
+    /// when the file of the slot is rewritten, it gets its previous modification time back
+    #[serde(default)]
+    pub keep_mtime: bool,
+}
+
+/// write `data` to `p` unless it already holds exactly that; optionally keep the modification time
+fn place(p: &std::path::Path, data: &[u8], keep_mtime: bool) {
+    match std::fs::read(p) {
+        Ok(old) if old == data => {}
+        Ok(_) => {
+            let mtime = std::fs::metadata(p).and_then(|m| m.modified()).ok();
+            std::fs::write(p, data).unwrap();
+            if let (true, Some(t)) = (keep_mtime, mtime) {
+                let f = std::fs::OpenOptions::new().write(true).open(p).unwrap();
+                let _ = f.set_modified(t);
+            }
+        }
+        Err(_) => std::fs::write(p, data).unwrap(),
+    }
 }
 
 #[derive(Clone, Debug, Serialize, Deserialize)]
@@ -22,9 +45,11 @@ pub struct Case {
     pub steps: Vec<Step>,
 }
 
-fn run_step(s: &Step, dir: &std::path::Path, tag: &str, out: &std::path::Path) -> Outcome {
-    let input = io::write_input(dir, &format!("in_{}", tag), &s.recs, &Container::plain_fasta());
-    let altp = io::write_input(dir, &format!("alt_{}", tag), &s.alt, &Container::plain_fasta());
+fn run_step(s: &Step, dir: &std::path::Path, _tag: &str, out: &std::path::Path) -> Outcome {
+    let input = dir.join(format!("in_slot{}.fa", s.slot));
+    let altp = dir.join(format!("alt_slot{}.fa", s.slot));
+    place(&input, &io::serialise(&s.recs, &Container::plain_fasta()), s.keep_mtime);
+    place(&altp, &io::serialise(&s.alt, &Container::plain_fasta()), s.keep_mtime);
     if s.via_cli {
         let data = std::fs::read(&input).unwrap();
         run_via_cli(&s.cmd, &input, Some(&altp), out, Some(&data))
@@ -66,6 +91,13 @@ pub fn check_case(c: &Case) -> Verdict {
     let last = c.steps.last().unwrap();
     v.class(format!("last-{:?}-{}", last.cmd.sub, if last.via_cli { "cli" } else { "lib" }));
     v.class(format!("history-len-{}", c.steps.len()));
+    {
+        let n = c.steps.len();
+        let same_path_earlier = c.steps[..n - 1].iter().any(|s| s.slot == last.slot);
+        v.class_if(same_path_earlier, "input-path-used-before");
+        v.class_if(n >= 3 && c.steps[0].slot == last.slot && c.steps[0].recs == last.recs && c.steps[1].slot != last.slot, "sandwich-same-file-untouched");
+        v.class_if(c.steps[n - 2].slot == last.slot && c.steps[n - 2].recs != last.recs && io::serialise(&c.steps[n - 2].recs, &Container::plain_fasta()).len() == io::serialise(&last.recs, &Container::plain_fasta()).len(), "input-rewritten-in-place-same-size");
+    }
     let mut before = (0u64, false);
     for (i, s) in c.steps.iter().enumerate() {
         if i + 1 == c.steps.len() {
@@ -141,7 +173,7 @@ fn step_strategy(tier: Tier, dir_based: bool) -> BoxedStrategy<Step> {
                 _ => cmd.k as usize,
             };
             let p = RecParams { max_records: tier.pick(12, 40), scale, max_len: tier.pick(120, 300), degenerate_w: 1, bounds: [scale, 0, 0], nuc_only: cmd.sub == Sub::Cgr };
-            (prop_oneof![2 => gen::records(p), 1 => gen::records_related(p)], gen::records(p)).prop_map(move |(recs, alt)| Step { cmd: cmd.clone(), recs, alt, via_cli, chunks })
+            (prop_oneof![2 => gen::records(p), 1 => gen::records_related(p)], gen::records(p), 0u8..=1, any::<bool>()).prop_map(move |(recs, alt, slot, keep_mtime)| Step { cmd: cmd.clone(), recs, alt, via_cli, chunks, slot, keep_mtime })
         })
         .boxed()
 }
@@ -153,12 +185,32 @@ impl Leg for Histories {
     fn strategy(tier: Tier) -> BoxedStrategy<Case> {
         any::<bool>()
             .prop_flat_map(move |dir_based| {
-                (proptest::collection::vec(step_strategy(tier, dir_based), 2..=3), prop::bool::weighted(0.15)).prop_map(|(mut steps, dup)| {
-                    if dup {
-                        // the same command twice
-                        let l = steps.last().unwrap().clone();
-                        let n = steps.len();
-                        steps[n - 2] = l;
+                (proptest::collection::vec(step_strategy(tier, dir_based), 2..=3), 0u8..20).prop_map(|(mut steps, shape)| {
+                    let n = steps.len();
+                    match shape {
+                        0..=2 => {
+                            // the same command twice
+                            let l = steps.last().unwrap().clone();
+                            steps[n - 2] = l;
+                        }
+                        3..=6 => {
+                            // sandwich: X, something else on another path, X again (same path, file untouched)
+                            let x = steps.last().unwrap().clone();
+                            let mut y = steps[0].clone();
+                            y.slot = 1 - x.slot;
+                            steps = vec![x.clone(), y, x];
+                        }
+                        7..=10 => {
+                            // the input file of the previous step rewritten in place with other records of the
+                            // same byte length (every sequence reversed), same command or the generated one
+                            let prev = steps[n - 2].clone();
+                            let mut l = if shape % 2 == 0 { prev.clone() } else { steps[n - 1].clone() };
+                            l.slot = prev.slot;
+                            l.recs = prev.recs.iter().map(|r| Rec { id: r.id.clone(), desc: r.desc.clone(), seq: crate::util::Bytes(r.seq.0.iter().rev().copied().collect()) }).collect();
+                            l.alt = prev.alt.iter().map(|r| Rec { id: r.id.clone(), desc: r.desc.clone(), seq: crate::util::Bytes(r.seq.0.iter().rev().copied().collect()) }).collect();
+                            steps[n - 1] = l;
+                        }
+                        _ => {}
                     }
                     Case { steps }
                 })
